@@ -103,7 +103,7 @@ def smtlib(f):
     if isinstance(f, bool):
         return "true" if f else "false"
     if isinstance(f, int):
-        return str(f)
+        return str(f) if f >= 0 else "(- %d)" % -f          # SMT-LIB numerals are non-negative
     cn = type(f).__name__
     if cn == 'ExpressionReference':
         if len(f.arguments) == 0:
@@ -145,9 +145,18 @@ def ev_tree(t, val, sorts):
             return ('B', True)
         if t == 'false':
             return ('B', False)
-        if t.lstrip('-').isdigit():
+        if t.isdigit():
+            if len(t) > 1 and t[0] == '0':
+                raise SyntaxError("not an SMT-LIB numeral: %r" % t)
             return ('I', int(t))
+        if t.lstrip('-').isdigit():
+            raise SyntaxError("not an SMT-LIB numeral (a negative constant is written (- n)): %r" % t)
         return (sorts[t], val[t])
+    if t[0] == '-' and len(t) == 2:
+        a = ev_tree(t[1], val, sorts)
+        return ('I', -_i(a))
+    if t[0] == 'distinct' and len(t) < 3:
+        raise SyntaxError("distinct needs at least two arguments")
     head, args = t[0], [ev_tree(a, val, sorts) for a in t[1:]]
     if head == 'and':
         return ('B', sand(*[_b(a) for a in args]))
@@ -185,4 +194,6 @@ def _tkey(a):
         if a.lstrip('-').isdigit():
             return int(a)
         return a
+    if a[0] == '-' and len(a) == 2 and isinstance(a[1], str) and a[1].isdigit():
+        return -int(a[1])
     return " ".join([a[0]] + [str(_tkey(x)) for x in a[1:]])
